@@ -88,6 +88,11 @@ QuadsOK ==
           LET mine == {i \in TriIdx : EdgesOfTri(i) = {e}} IN
           /\ Cardinality(mine) = 2
           /\ UNION {{T(i)[1], T(i)[2], T(i)[3]} : i \in mine} = {RingCodes(e)[k] : k \in 1..4}
+          \* the two triangles tile the quad: they meet in one diagonal (two cubes opposite each other in the ring)
+          /\ \A i, j \in mine : i # j =>
+                LET sh == {T(i)[1], T(i)[2], T(i)[3]} \cap {T(j)[1], T(j)[2], T(j)[3]} IN
+                /\ Cardinality(sh) = 2
+                /\ \A a, b \in sh : a # b => (PosIn(e, a) - PosIn(e, b)) % 4 = 2
 
 OrientOK ==
     \A i \in TriIdx : \A e \in EdgesOfTri(i) :
